@@ -28,7 +28,7 @@ func Leaves(thorough bool) []Named {
 	for _, s := range []string{"/a", "/b", "/a/b"} {
 		add(name(s), "name "+s)
 	}
-	for _, s := range []string{"", "a", "1", "/a", "[]"} {
+	for _, s := range []string{"", "a", "1", "/a", "[]", "\ufffd", "x\ufffd"} {
 		add(ast.String(s), "string "+s)
 	}
 	for _, b := range [][]byte{{}, {'a'}, {0xff}} {
@@ -122,7 +122,7 @@ func Universe(thorough bool) []Named {
 		}
 		return o
 	}
-	sub := pick(0, 2, 3, 4, 5, 9, 11, 12, 13, 14, 16, 17, 22, 25)
+	sub := pick(0, 2, 3, 4, 5, 8, 11, 13, 14, 15, 16, 18, 19, 24, 27)
 	if thorough {
 		sub = lc
 	}
